@@ -234,7 +234,7 @@ static int run_child(long idx, vcase_fn fn, void *arg, int watchdog_s, pid_t *pi
         fn(idx, arg);
         vsummary(false);
         fflush(stdout);
-        exit(0);   /* runs LeakSanitizer when enabled */
+        exit(n_viol > 0 ? 77 : 0);   /* runs LeakSanitizer when enabled; 77 = violations were reported in the normal way */
     }
     *pid_out = pid;
     double deadline = vnow() + watchdog_s;
@@ -252,6 +252,9 @@ static int run_child(long idx, vcase_fn fn, void *arg, int watchdog_s, pid_t *pi
     }
 }
 
+static int n_bad_cases;
+bool vstop_early(void) { return n_bad_cases >= 3; }
+
 int vfork_case(long idx, vcase_fn fn, void *arg, int watchdog_s, const char *clsname)
 {
     pid_t pid = 0; int st = 0;
@@ -265,14 +268,17 @@ int vfork_case(long idx, vcase_fn fn, void *arg, int watchdog_s, const char *cls
             printf("{\"t\":\"exit\",\"case\":%ld,\"pid\":%d,\"status\":\"timeout\",\"cls\":\"%s\"}\n",
                    idx, (int)pid, clsname);
             fflush(stdout);
+            n_bad_cases++;
             return -1;
         }
     }
-    if (WIFEXITED(st) && WEXITSTATUS(st) == 0) {
+    if (WIFEXITED(st) && (WEXITSTATUS(st) == 0 || WEXITSTATUS(st) == 77)) {
         char ep[512]; snprintf(ep, sizeof ep, "%s/case.%d.err", va.dir, (int)pid);
         unlink(ep);
+        if (WEXITSTATUS(st) == 77) n_bad_cases++;
         return 0;
     }
+    n_bad_cases++;
     char stbuf[32];
     if (WIFSIGNALED(st)) snprintf(stbuf, sizeof stbuf, "sig%d", WTERMSIG(st));
     else snprintf(stbuf, sizeof stbuf, "exit%d", WEXITSTATUS(st));
